@@ -186,7 +186,7 @@ Definition check_part (c : catalog) (obs : smap) : bool :=
 Definition check_C15 (k : case) : bool := check_coll (k_cat k) (k_coll k) && check_part (k_cat k) (k_part k).
 
 Definition mismatches (l : list (N * case)) : list N := failing_ids agrees l.
-Definition checkfails (l : list (N * case)) : list N := failing_ids (fun k => negb (names_plain (k_cat k)) || check_C15 k) l.
+Definition checkfails (l : list (N * case)) : list N := failing_ids check_C15 l.
 (* class 1: two different names of the catalog share a key and the table differs from the per-name expectation *)
 Definition knownclass (l : list (N * case)) : list (N * N) :=
   flat_map (fun ic => if negb (names_plain (k_cat (snd ic))) && negb (check_C15 (snd ic)) then [(fst ic, 1%N)] else []) l.
